@@ -20,7 +20,7 @@ CLAIMS = {
             "Not decided: per-graph sets under default-context compression for every history. Trusted: mypy inference, ast, Store API contract.",
             "typed truthiness lint (mypy types) + call-graph effect analysis + CFG must-follow"),
     "C03": ("DESIGN.md §2 C03",
-            "Decides: serialisation terminates on cyclic/malformed rdf:List chains (every rdf:rest link-walk loop is bounded, guarded by a visited set, consumes the link or is called only under a guarded validator); N-Triples/Turtle string escape tables of writer and reader agree; RDF/XML xmlns declarations and element names use the same strict qname split; the JSON-LD reader tests converted values with `is None` (falsy literals kept); recursive Turtle-family writers mark a node done before writing its description; serializer memos are key-complete.",
+            "Decides: serialisation terminates on cyclic/malformed rdf:List chains (every rdf:rest link-walk loop is bounded, guarded by a visited set, consumes the link or is called only under a guarded validator); N-Triples/Turtle string escape tables of writer and reader agree; RDF/XML xmlns declarations and element names use the same strict qname split; the JSON-LD reader tests converted values with `is None` (falsy literals kept); recursive Turtle-family writers mark a node done before writing its description; serializer memos are key-complete; the JSON-LD writer visits every blank-node subject and folds into @list only cells without a second referrer; the Turtle-family and pretty-xml collection abbreviations are chosen only by validators that require unshared blank cells with exactly rdf:first/rdf:rest (and, for parseType=Collection, no literal members) and mark every cell written.",
             "Not decided: equality of the reparsed graph (value-level: numeric shorthand, qname splitting, bnode inlining, RDF/XML nesting, JSON-LD conversion).",
             "link-walk termination rule + writer/reader escape-table comparison (ast)"),
     "C04": ("DESIGN.md §2 C04",
@@ -36,15 +36,15 @@ CLAIMS = {
             "Not decided: value-level round trip, RDF Patch diff algebra. Known finding: JSON-LD folds blank-node-named graphs into the default graph.",
             "effect analysis of graph-to-graph copies inside quad serializers (ast + mypy types)"),
     "C07": ("DESIGN.md §2 C07",
-            "Decides: eq/hash coherence by construction for every Node subclass (fields and normalisers read by __hash__ are those compared by __eq__), _ORDERING ranks distinct with BNode<Variable<URIRef<Literal and symmetric lookup, pickle reconstruction covers every field __eq__ compares; n3() string escape tables agree with the readers; from_n3 forwards its resolution context to the datatype; the SPARQL prologue never re-bases an IRI that has a scheme.",
+            "Decides: eq/hash coherence by construction for every Node subclass (fields and normalisers read by __hash__ are those compared by __eq__), _ORDERING ranks distinct with BNode<Variable<URIRef<Literal and symmetric lookup, pickle reconstruction covers every field __eq__ compares; n3() string escape tables agree with the readers; from_n3 forwards its resolution context to the datatype; the SPARQL prologue never re-bases an IRI that has a scheme; SPARQL request text is parsed with tabs preserved (pyparsing parseWithTabs on every entry element); from_n3 has a branch for ?variables and builds decimals without float().",
             "Not decided: transitivity of Literal ordering across datatypes, n3()/from_n3 text round trip (value-level).",
             "field/normaliser table agreement between sibling dunder methods (ast)"),
     "C08": ("DESIGN.md §2 C08",
-            "Decides: every Aggregate_* name of the grammar has an accumulator class and vice versa; every modifier node has an evaluator arm; DISTINCT bookkeeping is uniform across Accumulator siblings; slice bounds are start and start+length; ORDER BY applies keys least-significant first on a stable sort without mutating the algebra; accumulators test running values by identity (falsy literals are values); DISTINCT/Project remember whole solutions; HAVING and ORDER BY variables are sampled per group unconditionally.",
+            "Decides: every Aggregate_* name of the grammar has an accumulator class and vice versa; every modifier node has an evaluator arm; DISTINCT bookkeeping is uniform across Accumulator siblings; slice bounds are start and start+length; ORDER BY applies keys least-significant first on a stable sort without mutating the algebra; accumulators test running values by identity (falsy literals are values); DISTINCT/Project remember whole solutions; HAVING and ORDER BY variables are sampled per group unconditionally; MIN/MAX bind the extreme term itself; SUM and AVG agree on non-numeric members (numeric() before .datatype, SPARQLTypeError handled).",
             "Not decided: numeric promotion, mixed-term ordering, HAVING after aliasing (value-level).",
             "dispatch-table exhaustiveness + sibling agreement (ast)"),
     "C09": ("DESIGN.md §2 C09",
-            "Decides table consistency: first-match order of the Python->XSD rules respects subclassing (bool before int, datetime before date), each listed Python type maps to a datatype whose XSDToPython converter exists, well-formedness checkers are keyed by datatypes that have converters, accept both ends of the XSD value space of their integer datatype (constant folding of the comparison chains) and admit every Python type the converter can return; %Y strftime output of lexicalisers is zero-padded; Duration.__eq__/__ne__ cover the timedelta that parse_xsd_duration returns; float has a lexicaliser writing INF/-INF/NaN; `.value` is never tested by truthiness in Literal's value-space methods.",
+            "Decides table consistency: first-match order of the Python->XSD rules respects subclassing (bool before int, datetime before date), each listed Python type maps to a datatype whose XSDToPython converter exists, well-formedness checkers are keyed by datatypes that have converters, accept both ends of the XSD value space of their integer datatype (constant folding of the comparison chains) and admit every Python type the converter can return; %Y strftime output of lexicalisers is zero-padded; Duration.__eq__/__ne__ cover the timedelta that parse_xsd_duration returns; float has a lexicaliser writing INF/-INF/NaN; `.value` is never tested by truthiness in Literal's value-space methods; no one-argument str() is applied to an expression whose static type includes bytes.",
             "Not decided: lexical<->value faithfulness over value spaces, normalisation idempotence (runtime values).",
             "table extraction and consistency comparison (ast)"),
     "C10": ("DESIGN.md §2 C10",
@@ -52,7 +52,7 @@ CLAIMS = {
             "Not decided: per-solution GRAPH ?g template targeting, what the union-default switch makes WHERE see.",
             "CFG ordering (must-precede, loop separation, materialise-before-mutate) over update evaluators (ast)"),
     "C11": ("DESIGN.md §2 C11",
-            "Decides: bound path ends are tested by identity (typed truthiness rule incl. signature inheritance for untyped overrides), no pattern-variable clobber in re-executed loops (package-wide), closure helpers recurse only under a visited-set guard and driver yields pass a done filter, the zero-length clause yields for a bound end without consulting the graph, every evaluator forwards both ends; the visited set prunes expansion only (an edge closing a cycle is still yielded); composition loops pass every pair on unfiltered; no path mutates an operand list it may share with another path; eval never assigns path attributes.",
+            "Decides: bound path ends are tested by identity (typed truthiness rule incl. signature inheritance for untyped overrides), no pattern-variable clobber in re-executed loops (package-wide), closure helpers recurse only under a visited-set guard and driver yields pass a done filter, the zero-length clause yields for a bound end without consulting the graph, every evaluator forwards both ends; the visited set prunes expansion only (an edge closing a cycle is still yielded); composition loops pass every pair on unfiltered; no path mutates an operand list it may share with another path; eval never assigns path attributes; every Comp node of the path grammar has a translatePath arm; NegatedPath.eval enumerates reversed edges for inverse members (open known finding F37b for the Python-level -~p, pinned by a doctest).",
             "Not decided: that composition/closure equal the relational definition (semantic).",
             "typed truthiness lint (mypy types) + loop-shape rules (ast)"),
     "C12": ("DESIGN.md §2 C12",
@@ -68,11 +68,11 @@ CLAIMS = {
             "Not decided: permutation/rename/prefix invariance, initBindings == VALUES (semantic).",
             "effect analysis with CompValue-typed receivers (mypy types + ast)"),
     "C16": ("DESIGN.md §2 C16",
-            "Decides table agreement: JSON type tags and keys written by termToJSON are inverted by parseJsonTerm to the same class; XML element/attribute names written per term class are those parseTerm dispatches on; unbound cells tested by identity in all four writers; SAX characters() always gets str(value) (falsy literals are not dropped); writers take rows from result.bindings (all-unbound rows kept); record readers do not use str.splitlines(); JSON cells are parsed individually; the XML datatype attribute is written whenever a datatype is present; Result.bindings extends the rows already collected.",
+            "Decides table agreement: JSON type tags and keys written by termToJSON are inverted by parseJsonTerm to the same class; XML element/attribute names written per term class are those parseTerm dispatches on; unbound cells tested by identity in all four writers; SAX characters() always gets str(value) (falsy literals are not dropped); writers take rows from result.bindings (all-unbound rows kept); record readers do not use str.splitlines(); JSON cells are parsed individually; the XML datatype attribute is written whenever a datatype is present; Result.bindings extends the rows already collected; literal text is written with CR as &#13; (as the repository's XMLWriter does).",
             "Not decided: TSV grammar, CSV quoting, control characters (value-level).",
             "writer/reader tag-table extraction and comparison (ast) + typed truthiness lint"),
     "C17": ("DESIGN.md §2 C17",
-            "Decides memo invalidation: on every path of a NamespaceManager method that reaches store.bind both qname memo dicts are cleared; wherever one memo is invalidated the other is too; memo reads are keyed by the IRI; Store.bind primitives keep the two maps inverse on the override path; normalizeUri assembles prefix and local name from one compute_qname result; graph views of one dataset share one NamespaceManager (open known finding F27 for the default-graph object); namespace/prefix memos are key-complete.",
+            "Decides memo invalidation: on every path of a NamespaceManager method that reaches store.bind both qname memo dicts are cleared; wherever one memo is invalidated the other is too; memo reads are keyed by the IRI; Store.bind primitives keep the two maps inverse on the override path; normalizeUri assembles prefix and local name from one compute_qname result; graph views of one dataset share one NamespaceManager (open known finding F27 for the default-graph object); namespace/prefix memos are key-complete; bind() of the in-memory stores writes only the requested (prefix, namespace) pair, never an entry assembled from two looked-up bindings.",
             "Not decided: inverse-ness of the store's two dicts (value reasoning; observed defect F6 out of reach).",
             "pairing rule on CFG paths: bind => invalidate both memos (ast)"),
     "C18": ("DESIGN.md §2 C18",
@@ -80,7 +80,7 @@ CLAIMS = {
             "Not decided: two-wrapper interleavings (schedules).",
             "CFG must-pass-through + tag table agreement (ast)"),
     "C19": ("DESIGN.md §2 C19",
-            "Decides: Collection members are tested by identity not truthiness; every rdf:rest walk in Collection/Graph.items terminates on cyclic chains (counter, visited set or link removal); no stale cached cell after deletions; append/__iadd__/clear/__delitem__ keep the chain well-formed (terminating rdf:nil, relink on delete); walk errors propagate instead of being reported as `absent`; mutating loops do not iterate a lazy walk of the chain they change and new cells are fresh blank nodes.",
+            "Decides: Collection members are tested by identity not truthiness; every rdf:rest walk in Collection/Graph.items terminates on cyclic chains (counter, visited set or link removal); no stale cached cell after deletions; append/__iadd__/clear/__delitem__ keep the chain well-formed (terminating rdf:nil, relink on delete); walk errors propagate instead of being reported as `absent`; mutating loops do not iterate a lazy walk of the chain they change and new cells are fresh blank nodes; _get_container never returns rdf:nil as a cell, negative indices are normalised by len, __delitem__ asks for a predecessor only for key > 0 (open known finding F39b: c[len(c)] = x appends, pinned by an infixowl test).",
             "Not decided: index arithmetic (negative indices, IndexError vs KeyError, head deletion).",
             "typed truthiness lint + link-walk termination rule (ast + mypy types)"),
     "C20": ("DESIGN.md §2 C20",
